@@ -23,7 +23,7 @@ ASSUMPTIONS = ['rows are float vectors of width 2 or 6; only operations that are
                'with drop_at the model is: contents are a suffix of the full list and include the newest row; an append (single '
                'or bulk) that brings the length to a multiple of drop_at discards the oldest drop_at // 2 rows and nothing else '
                'ever discards (the policy the ticker / trade / orderbook stores are sized for)']
-MIN_OBS = {'bulk_appends_into_empty': 100, 'ops': 5000, 'slice_reads': 100000, 'index_reads': 20000, 'bucket_crossings': 500, 'deletes': 500,
+MIN_OBS = {'setslice_bounds_beyond_length': 50, 'bulk_appends_of_no_rows': 20, 'bulk_appends_into_empty': 100, 'ops': 5000, 'slice_reads': 100000, 'index_reads': 20000, 'bucket_crossings': 500, 'deletes': 500,
            'append_after_delete': 300, 'negative_slice_start_reads': 5000, 'setitem_ops': 200}
 EXHAUSTIVE_NOTE = 'DFS jobs enumerate every sequence over their alphabet up to their depth (see samples of kind dfs)'
 
@@ -106,7 +106,7 @@ class Harness:
         rs = [self.new_row() for _ in range(k)]
         self.hist.append(['M', k])
         try:
-            self.a.append_multiple(_rows(rs))
+            self.a.append_multiple(_rows(rs) if k else np.zeros((0, self.width)))
         except Exception as e:
             raise Viol('append_multiple_raises_after_delete' if self.deleted_before else 'append_multiple_raises',
                        f'append_multiple({k}) raised {e!r} at len {len(self.m)}')
@@ -392,9 +392,20 @@ def _random(job):
                 elif r < 0.55:
                     h.op_append_multiple(rng.randint(1, max(2, bucket + 2)))
                 elif r < 0.72:
-                    h.op_delete(rng.choice([0, n - 1, rng.randrange(n)]))
-                elif r < 0.82:
+                    # (negative positions count from the end of the rows, as on a list)
+                    h.op_delete(rng.choice([0, n - 1, rng.randrange(n), -1, rng.randrange(-n, 0)]))
+                elif r < 0.80:
                     h.op_setitem(rng.randrange(-n, n))
+                elif r < 0.82:
+                    # equal-length assignment through a slice whose bounds reach beyond the rows (list: clamped to the length),
+                    # and a bulk append of no rows at all
+                    if rng.random() < 0.7:
+                        s_ = rng.choice([rng.randrange(0, n), -n - rng.randint(1, 3), rng.randrange(-n, 0)])
+                        h.op_setslice(s_, n + rng.randint(1, 50))
+                        h.c('setslice_bounds_beyond_length')
+                    else:
+                        h.op_append_multiple(0)
+                        h.c('bulk_appends_of_no_rows')
                 elif r < 0.92:
                     s = rng.randrange(-n, n)
                     e = rng.choice([None, rng.randint(s if s >= 0 else s, n if s >= 0 else 0)])
